@@ -83,6 +83,8 @@ SNIPPETS = [
     "class Swallow:\n    def __enter__(self):\n        return None\n    def __exit__(self, t, v, tb):\n        return t is not None\nwith Swallow():\n    raise KeyError('k')\nreturn 'after'",
     "xs = [1, 2, 3, 4]\nreturn xs[:-1], xs[1:], xs[::2], 'abcd'[1:3], (1, 2, 3)[:2]",
     "def f(a, b=0, **kw):\n    return a, b, kw\nd = dict(b=2, c=3)\nreturn f(1, **d), f(1, **{})",
+    "def f():\n    try:\n        raise KeyError('k')\n    except KeyError:\n        raise\ntry:\n    f()\nexcept LookupError:\n    return 'reraised'\nreturn 'no'",
+    "import contextlib\nlog = []\n@contextlib.contextmanager\ndef res(name):\n    log.append('make ' + name)\n    try:\n        yield name.upper()\n    finally:\n        log.append('drop ' + name)\ndef use(fail):\n    with res('a') as r, res('b') as q:\n        log.append(r + q)\n        if fail:\n            raise ValueError('x')\n        return 1\nout = use(False)\ntry:\n    use(True)\nexcept ValueError:\n    log.append('caught')\nreturn out, log",
     "def f(*args, **kw):\n    return args, kw\nreturn f(1, 2, k=3), f(*[4, 5], **{'z': 6})",
 ]
 
